@@ -5,11 +5,14 @@
 #include <cstddef>
 namespace vf {
 template <typename O> std::size_t arr_size(const O & o) { return static_cast<std::size_t>(o.get_configuration()[0]); }
+template <typename A, typename B> auto pick_ptr(const A & a, const B & b) {
+  if constexpr (requires { a.get(); }) return a.get(); else return b.get();
+}
 template <typename O> auto arr_data(const O & o) {
   if constexpr (requires { o.m_ptr.get(); }) return o.m_ptr.get();
   else {
     const auto & [a, b] = o;
-    if constexpr (requires { a.get(); }) return a.get(); else return b.get();
+    return pick_ptr(a, b);
   }
 }
 template <typename O> bool arr_null(const O & o) { return arr_data(o) == nullptr; }
